@@ -310,6 +310,12 @@ structure Obs where
   curB : Nat
   waitI : Nat
   waitB : Nat
+  /-- searches whose context became done *during* this operation without anybody cancelling it from outside: the
+      harness gives some searches a "tripwire" context that cancels itself the moment its `Err()` is consulted while it
+      is not done. `multiScheduler` and `semaphore.Weighted` only consult `Err()` on their failure paths (after `Done()`
+      was seen closed), so the model never reports any; code that re-examines the context after the semaphore granted
+      the slot makes the cancellation land exactly between "slot granted" and "call returns". -/
+  fired : List Nat := []
   deriving Repr
 
 def dRun : DState → List Op → DState × List Obs
@@ -317,6 +323,6 @@ def dRun : DState → List Op → DState × List Obs
   | d, op :: rest =>
     let (d1, o) := dStep d op
     let (d2, os) := dRun d1 rest
-    (d2, ⟨o, d1.st.curI, d1.st.curB, d1.qI.length, d1.qB.length⟩ :: os)
+    (d2, ⟨o, d1.st.curI, d1.st.curB, d1.qI.length, d1.qB.length, []⟩ :: os)
 
 end ZoektModel.C20
